@@ -80,6 +80,20 @@ def dec(j: dict) -> Any:
     raise ValueError(f"bad encoded value {j!r}")
 
 
+def canon_floats(j: Any) -> Any:
+    """in an encoded value / SD reply of the model, replace float lexemes by Python's repr of their value"""
+    if isinstance(j, dict):
+        if set(j.keys()) == {"f"} and isinstance(j["f"], str):
+            try:
+                return {"f": repr(float(j["f"]))}
+            except ValueError:
+                return {"f": "INVALID:" + j["f"]}
+        return {k: canon_floats(v) for k, v in j.items()}
+    if isinstance(j, list):
+        return [canon_floats(x) for x in j]
+    return j
+
+
 def canon(v: Any) -> Any:
     """typed, order-preserving canonical form of a Python value (for deep comparison *with* types)."""
     return enc(v)
